@@ -6,16 +6,19 @@
 (***************************************************************************)
 EXTENDS Integers, Sequences, FiniteSets, TLC, SequencesExt, FiniteSetsExt
 
-\* ---- rules (a bag is a function stack -> <<v1, v2>>; a stack is a leaf-first sequence of function names)
+\* ---- rules (a bag is a function sample key -> <<v1, v2>>; a stack is a leaf-first sequence of function names)
 NCols == 2
 SamplesOf(srcs) == FoldLeft(LAMBDA acc, s : IF s.ok THEN acc \o s.samples ELSE acc, <<>>, srcs)
-StacksIn(samples) == {samples[i].stack : i \in DOMAIN samples}
-ColSum(samples, st, k) == FoldLeft(LAMBDA acc, x : IF x.stack = st THEN acc + x.v[k] ELSE acc, 0, samples)
-BagOfSamples(samples) == [st \in StacksIn(samples) |-> [k \in 1..NCols |-> ColSum(samples, st, k)]]
-MergedOf(srcs) == BagOfSamples(SamplesOf(srcs))
-\* -base sources are subtracted: their samples count negatively
+\* A sample of the merged profile is identified by its stack AND by whether it carries the diff-base mark
+\* (-diff_base labels the base samples, so they never merge with source samples of the same stack).
+Tag(samples, b) == [i \in DOMAIN samples |-> [stack |-> samples[i].stack, v |-> samples[i].v, b |-> b]]
+KeysIn(samples) == {[s |-> samples[i].stack, b |-> samples[i].b] : i \in DOMAIN samples}
+ColSum(samples, key, k) == FoldLeft(LAMBDA acc, x : IF x.stack = key.s /\ x.b = key.b THEN acc + x.v[k] ELSE acc, 0, samples)
+BagOfSamples(samples) == [key \in KeysIn(samples) |-> [k \in 1..NCols |-> ColSum(samples, key, k)]]
+MergedOf(srcs) == BagOfSamples(Tag(SamplesOf(srcs), FALSE))
+\* -base / -diff_base sources are subtracted: their samples count negatively
 Negated(samples) == [i \in DOMAIN samples |-> [samples[i] EXCEPT !.v = [k \in DOMAIN samples[i].v |-> 0 - samples[i].v[k]]]]
-CombinedOf(srcs, bases) == BagOfSamples(SamplesOf(srcs) \o Negated(SamplesOf(bases)))
+CombinedOf(srcs, bases, diff) == BagOfSamples(Tag(SamplesOf(srcs), FALSE) \o Tag(Negated(SamplesOf(bases)), diff))
 \* the profile's own frame-dropping rules (RemoveUninteresting, after symbolization): a frame matches when its
 \* name is in drop and not in keep; a stack is cut at the root-most matching frame that has a non-matching frame
 \* on its root side: that frame and everything on its leaf side go
@@ -33,7 +36,7 @@ NoOpts == [focus |-> {}, ignore |-> {}, hide |-> {}, show |-> {}, si |-> NCols, 
 \* sample, so the sample granularity of the merged profile stays observable.)
 Prof(bag, drop, keep) == [bag |-> bag, drop |-> drop, keep |-> keep]
 NoProf == Prof(<<>>, {}, {})
-V(p, st) == Cut(st, p.drop, p.keep)
+V(p, st) == Cut(st.s, p.drop, p.keep)
 Kept(p, o) == {st \in DOMAIN p.bag : (o.focus = {} \/ HasFrame(V(p, st), o.focus)) /\ ~HasFrame(V(p, st), o.ignore)}
 SumOver(S, f(_)) == FoldSet(LAMBDA st, acc : acc + f(st), 0, S)
 \* hide removes the frames it names, show keeps only the frames it names; focus and ignore were decided on the
@@ -44,7 +47,11 @@ Flat(p, o, fn) == SumOver({st \in Kept(p, o) : Len(Shown(p, o, st)) > 0 /\ Shown
 Cum(p, o, fn) == SumOver({st \in Kept(p, o) : HasFrame(Shown(p, o, st), {fn})}, LAMBDA st : p.bag[st][o.si])
 \* the total is the sum of the MAGNITUDES of the (merged) samples: with -base the differences count with their size
 Abs(x) == IF x < 0 THEN 0 - x ELSE x
-Total(p, o) == SumOver(IF o.rel THEN Visible(p, o) ELSE DOMAIN p.bag, LAMBDA st : Abs(p.bag[st][o.si]))
+\* with -diff_base only the base samples count, if they have any weight: percentages are relative to the base
+Total(p, o) ==
+  LET S == IF o.rel THEN Visible(p, o) ELSE DOMAIN p.bag
+      base == SumOver({st \in S : st.b}, LAMBDA st : Abs(p.bag[st][o.si]))
+  IN IF base > 0 THEN base ELSE SumOver(S, LAMBDA st : Abs(p.bag[st][o.si]))
 FnsOf(p) == UNION {{V(p, st)[i] : i \in DOMAIN V(p, st)} : st \in DOMAIN p.bag}
 TopRows(p, o) == {[fn |-> f, flat |-> Flat(p, o, f), cum |-> Cum(p, o, f)] : f \in FnsOf(p)}
 \* a traces report: the kept stacks as seen, with their value in the selected column (zero entries are not printed)
